@@ -398,10 +398,8 @@ class SynthDef(metaclass=MetaSynthDef):
             for cn in kr_cns:
                 values.append(cn.default_value)
                 valsize = len(utl.as_list(cn.default_value))
-                if valsize > 1:
-                    lags.extend(utl.wrap_extend(utl.as_list(cn.lag), valsize))
-                else:
-                    lags.append(cn.lag)
+                # One lag per slot, also for a lag list on a single slot.
+                lags.extend(utl.wrap_extend(utl.as_list(cn.lag), valsize))
             index = self._control_index
 
             if any(x != 0 for x in lags):
